@@ -95,6 +95,18 @@ theorem lin_go (b : U8) (a : U16) : ((b.toNat <<< 0x10) % 4294967296) ||| a.toNa
   rw [show b.toNat * 2 ^ 0x10 = b.toNat <<< 16 from (Nat.shiftLeft_eq _ _).symm]
   rw [← Nat.shiftLeft_add_eq_or_of_lt (by omega : a.toNat < 2 ^ 16), Nat.shiftLeft_eq]
 
+/-- `uint32(hh)<<16 | uint32(mm)<<8 | uint32(ll)` -/
+theorem le24_go (h m l : U8) :
+    (((h.toNat <<< 0x10) % 4294967296) ||| ((m.toNat <<< 8) % 4294967296)) ||| l.toNat = h.toNat * 65536 + m.toNat * 256 + l.toNat := by
+  have hh := h.isLt; have hm := m.isLt; have hl := l.isLt
+  have e1 : (h.toNat <<< 0x10) % 4294967296 = (h.toNat <<< 8) <<< 8 := by
+    rw [Nat.shiftLeft_eq, Nat.shiftLeft_eq, Nat.shiftLeft_eq, Nat.mod_eq_of_lt (by omega)]; omega
+  have e2 : (m.toNat <<< 8) % 4294967296 = m.toNat <<< 8 := by
+    rw [Nat.shiftLeft_eq, Nat.mod_eq_of_lt (by omega)]
+  rw [e1, e2, ← Nat.shiftLeft_or_distrib, ← Nat.shiftLeft_add_eq_or_of_lt (by omega : m.toNat < 2 ^ 8),
+    ← Nat.shiftLeft_add_eq_or_of_lt (by omega : l.toNat < 2 ^ 8), Nat.shiftLeft_eq, Nat.shiftLeft_eq]
+  omega
+
 /-- `uint16(hh)<<8 | uint16(ll)` -/
 theorem mk16_go (h l : U8) : ((zx h) <<< 8) ||| (zx l) = mk16 h l := rfl
 
